@@ -1,5 +1,5 @@
 (* Prop_C20.v — property C20: the unverified pre-decode agrees with what full validation returns.
-   The pre-decoder (DecodeUnverifiedBaseResponse) is xml.Unmarshal on the raw bytes = the schema interpreter on the RAW
+   The pre-decoder (DecodeUnverifiedBaseResponse) is xmlUnmarshalDocument (xml.Decoder.Decode, pass-through CharsetReader) on the raw bytes = the schema interpreter on the RAW
    token view; validation decodes etree's tree ([dedupe raw]: etree de-duplicates attributes) or the verified tree.
    Proved for the skip path and the unsigned-Response path, for every document without duplicated attribute names
    (XML well-formedness); the known finding F9 (duplicated root attribute) is the refutation outside that premise.
@@ -52,6 +52,19 @@ Theorem C20_predecode_disagrees_on_signed_root_with_xmlns_named_attributes_refut
 Proof. exact predecode_disagrees_on_signed_root_with_xmlns_named_attributes. Qed.
 Print Assumptions C20_predecode_disagrees_on_signed_root_with_xmlns_named_attributes_refuted.
 
+(* the pre-decoder reads the received bytes directly (Schema.view_direct: no etree serialisation, no second end-of-line
+   normalisation); on a root without U+000D in its values that is the reading above, hence: *)
+Theorem C20_predecode_direct_agrees_when_root_unsigned : forall dsig decrypt cfg now raw r b,
+  well_formed_attrs raw = true ->
+  cr_free raw = true ->
+  (cfg_skip_sig cfg = true \/ dsig (dedupe raw) = DMissing) ->
+  validate_response_tree dsig decrypt cfg now (dedupe raw) = Ok r ->
+  unmarshal_base_response_direct raw = Ok b ->
+  br_id b = r_id r /\ br_in_response_to b = r_in_response_to r /\ br_destination b = r_destination r /\
+  br_version b = r_version r /\ br_issuer b = r_issuer r.
+Proof. exact predecode_direct_agrees_when_root_unsigned. Qed.
+Print Assumptions C20_predecode_direct_agrees_when_root_unsigned.
+
 (* ---- the pre-decoder and the full decoder read the same, normative, binding table ---- *)
 From V Require Import SchemaDefs Generated SamlSchema P_SamlSchema.
 Theorem C20_decode_schema_is_saml_core : xml_schema = saml_core_schema.
@@ -59,31 +72,35 @@ Proof. exact schema_is_saml_core. Qed.
 Print Assumptions C20_decode_schema_is_saml_core.
 
 (* ---- tie to the source text of this run (unit GenDeflate): the two unverified decoders as TRANSLATED from decode_response.go
-   are base64, then maybeDeflate with the default limit over xml.Unmarshal of the bytes into a fresh struct — the row of
-   Deflate.v's entry-point table — for every message and every behaviour of the DEFLATE / xml.Unmarshal oracles ---- *)
-From V Require Import Deflate GenPrelude GenPreludeDeflate GenDeflate P_GenDeflate.
+   are base64, then maybeDeflate with the default limit over the decoding of the bytes into a fresh struct — the row of
+   Deflate.v's entry-point table — for every message and every behaviour of the DEFLATE / XML-decoding oracles.  The XML
+   oracle is indexed by the decoder's CharsetReader setting; the closures call xmlUnmarshalDocument, whose setting the
+   translator reads off its body (xml.NewDecoder over the bytes, CharsetReader = pass-through, Decode): CsPassThrough.  On a
+   tree that still calls xml.Unmarshal there (before the repair 6cc4dbc, F14) the term carries CsNone and these do not hold ---- *)
+From V Require Import Deflate XmlTok GenPrelude GenPreludeDeflate GenDeflate P_GenDeflate.
 Theorem C20_source_DecodeUnverifiedBaseResponse_is_the_model :
-  forall (inflate : string -> Z -> string * bool) (um : string -> base_response * option err) (enc : string),
-  G_DecodeUnverifiedBaseResponse inflate um enc = PVal (unverified_entry inflate EP_DecodeUnverifiedBaseResponse um enc).
+  forall (inflate : string -> Z -> string * bool) (um : charset_reader -> string -> base_response * option err) (enc : string),
+  G_DecodeUnverifiedBaseResponse inflate um enc
+  = PVal (unverified_entry inflate EP_DecodeUnverifiedBaseResponse (um CsPassThrough) enc).
 Proof. exact G_DecodeUnverifiedBaseResponse_is_model. Qed.
 Print Assumptions C20_source_DecodeUnverifiedBaseResponse_is_the_model.
 
 Theorem C20_source_DecodeUnverifiedLogoutResponse_is_the_model :
-  forall (inflate : string -> Z -> string * bool) (um : string -> logout_response * option err) (enc : string),
-  G_DecodeUnverifiedLogoutResponse inflate um enc = PVal (unverified_entry inflate EP_DecodeUnverifiedLogoutResponse um enc).
+  forall (inflate : string -> Z -> string * bool) (um : charset_reader -> string -> logout_response * option err) (enc : string),
+  G_DecodeUnverifiedLogoutResponse inflate um enc
+  = PVal (unverified_entry inflate EP_DecodeUnverifiedLogoutResponse (um CsPassThrough) enc).
 Proof. exact G_DecodeUnverifiedLogoutResponse_is_model. Qed.
 Print Assumptions C20_source_DecodeUnverifiedLogoutResponse_is_the_model.
 
-(* H_unmarshal_view, inbound half, as a theorem over the tokenizer model (XmlTok.v).  The pre-decoder is xml.Unmarshal on the
-   raw bytes: a fresh Decoder (Strict, NO CharsetReader), Token() = RawToken + nesting check, consumption stops at the end
-   tag of the first element ([token_view]).  Validation reads the same bytes with etree (pass-through CharsetReader, whole
-   document, attributes de-duplicated: [read_tree]).  Whenever etree reads the document and the XML declaration, if any,
-   does not name an encoding other than UTF-8, the element the pre-decoder consumes is etree's duplicate-preserving root,
-   and etree's tree is its [dedupe] -- the relation the theorems above assume between [raw] and [dedupe raw]. *)
-From V Require Import XmlTok P_XmlTok P_XmlTokC20.
+(* H_unmarshal_view, inbound half, as a theorem over the tokenizer model (XmlTok.v).  The pre-decoder is xmlUnmarshalDocument
+   on the raw bytes: a fresh Decoder (Strict, pass-through CharsetReader -- the configuration etree reads with), Token() =
+   RawToken + nesting check, consumption stops at the end tag of the first element ([token_view]).  Validation reads the same
+   bytes with etree (whole document, attributes de-duplicated: [read_tree]).  For EVERY byte string etree reads -- whatever
+   its XML declaration says -- the element the pre-decoder consumes is etree's duplicate-preserving root, and etree's tree
+   is its [dedupe]: the relation the theorems above assume between [raw] and [dedupe raw]. *)
+From V Require Import P_XmlTok P_XmlTokC20.
 Theorem C20_predecode_reads_the_same_tokens : forall s r,
   read_tree s = Ok r ->
-  (forall toks i, raw_tokens s = Ok toks -> In (RProcInst "xml" i) toks -> encoding_ok i = true) ->
   exists r0, token_view s = Ok r0 /\ read_root_raw s = Ok (Some r0) /\ dedupe r0 = r.
 Proof. exact predecode_view_of_validated_tree. Qed.
 Print Assumptions C20_predecode_reads_the_same_tokens.
@@ -92,16 +109,15 @@ Print Assumptions C20_predecode_reads_the_same_tokens.
    document etree builds from ALL tokens *)
 Theorem C20_token_view_is_first_element : forall s kids root,
   read_doc false s = Ok kids -> first_elem kids = Some root ->
-  (forall toks i, raw_tokens s = Ok toks -> In (RProcInst "xml" i) toks -> encoding_ok i = true) ->
   token_view s = Ok root.
 Proof. exact predecode_reads_the_same_tokens. Qed.
 Print Assumptions C20_token_view_is_first_element.
 
-(* composition with C20_predecode_agrees_when_root_unsigned: agreement of the two decoders FROM THE BYTES *)
+(* composition with C20_predecode_agrees_when_root_unsigned: agreement of the two decoders FROM THE BYTES, for every document
+   whose root has no duplicated attribute names and no U+000D in a value (one can only get there through &#13; / &#xD;) *)
 Theorem C20_predecode_agrees_from_bytes : forall dsig decrypt cfg now s tree r b,
   read_tree s = Ok tree ->
-  (forall toks i, raw_tokens s = Ok toks -> In (RProcInst "xml" i) toks -> encoding_ok i = true) ->
-  (forall raw, read_root_raw s = Ok (Some raw) -> well_formed_attrs raw = true) ->
+  (forall raw, read_root_raw s = Ok (Some raw) -> well_formed_attrs raw = true /\ cr_free raw = true) ->
   (cfg_skip_sig cfg = true \/ dsig tree = DMissing) ->
   validate_response_tree dsig decrypt cfg now tree = Ok r ->
   predecode_bytes s = Ok b ->
@@ -110,6 +126,37 @@ Theorem C20_predecode_agrees_from_bytes : forall dsig decrypt cfg now s tree r b
 Proof. exact predecode_agrees_from_bytes. Qed.
 Print Assumptions C20_predecode_agrees_from_bytes.
 
+(* the translated pre-decoders with their XML oracle instantiated by the model (token view under the CharsetReader setting
+   they are called with + schema interpreter): base64, maybeDeflate, [predecode_bytes] -- i.e. the pass-through reading *)
+Theorem C20_source_predecoders_read_with_pass_through : forall (inflate : string -> Z -> string * bool) (enc : string),
+  G_DecodeUnverifiedBaseResponse inflate um_base_model enc = PVal (predecode_encoded inflate enc) /\
+  G_DecodeUnverifiedLogoutResponse inflate um_logout_model enc = PVal (predecode_logout_encoded inflate enc).
+Proof. exact source_predecoders_read_with_pass_through. Qed.
+Print Assumptions C20_source_predecoders_read_with_pass_through.
+
+(* "whatever validation can read, the pre-decoder reads": an uncompressed document etree reads is pre-decoded from its own
+   root (the DEFLATE branch is not entered), whatever the declaration says, as soon as the struct decoder takes that root *)
+Theorem C20_predecode_succeeds_on_raw_document_etree_reads : forall (inflate : string -> Z -> string * bool) enc s tree,
+  GenPreludeD.b64_decode enc = Ok s -> read_tree s = Ok tree ->
+  exists raw, read_root_raw s = Ok (Some raw) /\ dedupe raw = tree /\
+    (forall b, unmarshal_base_response_direct raw = Ok b -> predecode_encoded inflate enc = Ok (Some b)).
+Proof. exact predecode_encoded_raw. Qed.
+Print Assumptions C20_predecode_succeeds_on_raw_document_etree_reads.
+
+(* the repair only adds: whatever the pre-decoder of the original code (xml.Unmarshal, no CharsetReader) consumed, the
+   repaired one consumes too *)
+Theorem C20_repair_preserves_token_view : forall s r, token_view_original s = Ok r -> token_view s = Ok r.
+Proof. exact repair_preserves_token_view. Qed.
+Print Assumptions C20_repair_preserves_token_view.
+
+(* ... and the original code needed the premise "the XML declaration names no encoding other than UTF-8" *)
+Theorem C20_predecode_before_repair_reads_the_same_tokens : forall s r,
+  read_tree s = Ok r ->
+  (forall toks i, raw_tokens s = Ok toks -> In (RProcInst "xml" i) toks -> encoding_ok i = true) ->
+  exists r0, token_view_original s = Ok r0 /\ read_root_raw s = Ok (Some r0) /\ dedupe r0 = r.
+Proof. exact predecode_original_view_of_validated_tree. Qed.
+Print Assumptions C20_predecode_before_repair_reads_the_same_tokens.
+
 (* example: a document with declaration, DOCTYPE, both quote kinds, references, CDATA, CR LF, comment, PI, a duplicated
    attribute and trailing white space *)
 Theorem C20_predecode_reads_the_same_tokens_example :
@@ -117,15 +164,47 @@ Theorem C20_predecode_reads_the_same_tokens_example :
 Proof. exact ex_doc_views_exist. Qed.
 Print Assumptions C20_predecode_reads_the_same_tokens_example.
 
-(* the encoding premise cannot be dropped: the two REAL readers disagree on a declaration naming another encoding (etree
-   passes the bytes through, xml.Unmarshal has no CharsetReader) -- a fidelity fact of the two libraries, confirmed by the
-   fixed cases of the xmltok stream; and the pre-decoder never looks behind the first element's end tag *)
-Theorem C20_predecode_foreign_encoding_refuted :
-  read_tree latin1_doc = Ok (Elem "" "a" [ {| at_space := ""; at_key := "ID"; at_val := "1" |} ] []) /\
-  token_view latin1_doc = Err syntax_error.
-Proof. exact predecode_foreign_encoding_refuted. Qed.
-Print Assumptions C20_predecode_foreign_encoding_refuted.
+(* the same document under encoding="ISO-8859-1", and a small one under encoding='utf8' (not "utf-8"): both views exist and
+   are related by de-duplication, while the original pre-decoder refuses both *)
+Theorem C20_predecode_reads_the_same_tokens_foreign_encoding_example :
+  (exists r r0, read_tree ex_doc_latin1 = Ok r /\ token_view ex_doc_latin1 = Ok r0 /\ dedupe r0 = r /\ r0 <> r /\
+                token_view_original ex_doc_latin1 = Err syntax_error) /\
+  (exists r r0, read_tree ex_doc_utf8_label = Ok r /\ token_view ex_doc_utf8_label = Ok r0 /\ dedupe r0 = r /\ r0 <> r /\
+                token_view_original ex_doc_utf8_label = Err syntax_error).
+Proof. exact ex_doc_latin1_views_exist. Qed.
+Print Assumptions C20_predecode_reads_the_same_tokens_foreign_encoding_example.
 
+(* F14, the defect repaired by 6cc4dbc, witnessed on the model of the code before: on a declaration naming another encoding
+   etree reads the document (pass-through CharsetReader) and xml.Unmarshal (no CharsetReader) refuses it, so the original
+   pre-decoder fell into its DEFLATE branch and reported that error on a document validation accepts; the repaired
+   pre-decoder reads etree's root.  Confirmed on the real decoders by the fixed cases of the xmltok stream. *)
+Theorem C20_predecode_foreign_encoding_before_repair_refuted :
+  read_tree latin1_doc = Ok (Elem "" "a" [ {| at_space := ""; at_key := "ID"; at_val := "1" |} ] []) /\
+  token_view_original latin1_doc = Err syntax_error /\
+  token_view latin1_doc = Ok (Elem "" "a" [ {| at_space := ""; at_key := "ID"; at_val := "1" |} ] []) /\
+  (exists e, predecode_bytes_original latin1_doc = Err e) /\
+  (forall inflate : string -> Z -> string * bool, snd (inflate latin1_doc (read_limit c_default)) = true ->
+     maybe_deflate inflate base_response predecode_bytes_original latin1_doc c_default = Err e_inflate).
+Proof. exact predecode_foreign_encoding_before_repair_refuted. Qed.
+Print Assumptions C20_predecode_foreign_encoding_before_repair_refuted.
+
+(* outside the premise [cr_free]: the known finding F13, witnessed from the bytes.  InResponseTo="_q&#13;x" on the root: the
+   pre-decoder reports "_q<CR>x"; validation decodes etree's re-serialisation of the element, which writes U+000D raw (F8),
+   so the second tokenizer pass reads "_q<LF>x" (last conjunct: the mechanism, Build.etree_write then read_tree) *)
+Theorem C20_predecode_disagrees_on_cr_character_reference_refuted :
+  read_tree f13_doc = Ok (Elem "samlp" "Response" (f13_attrs f13_cr_value) []) /\
+  well_formed_attrs (Elem "samlp" "Response" (f13_attrs f13_cr_value) []) = true /\
+  cr_free (Elem "samlp" "Response" (f13_attrs f13_cr_value) []) = false /\
+  option_map br_in_response_to (match predecode_bytes f13_doc with Ok b => Some b | Err _ => None end) = Some f13_cr_value /\
+  option_map r_in_response_to
+    (match unmarshal_response (Elem "samlp" "Response" (f13_attrs f13_cr_value) []) with Ok r => Some r | Err _ => None end)
+    = Some f13_lf_value /\
+  read_tree (Build.etree_write (Elem "samlp" "Response" (f13_attrs f13_cr_value) []))
+    = Ok (Elem "samlp" "Response" (f13_attrs f13_lf_value) []).
+Proof. exact predecode_disagrees_on_cr_reference. Qed.
+Print Assumptions C20_predecode_disagrees_on_cr_character_reference_refuted.
+
+(* the pre-decoder never looks behind the first element's end tag *)
 Theorem C20_predecode_ignores_what_follows_the_root :
   token_view "<a x='1'/><<<" = Ok (Elem "" "a" [ {| at_space := ""; at_key := "x"; at_val := "1" |} ] []) /\
   (exists e, read_tree "<a x='1'/><<<" = Err e).
